@@ -492,3 +492,179 @@ Proof.
   intros Hb Hcs. unfold render. rewrite paint_all_writes by assumption.
   destruct (last_write p _); reflexivity.
 Qed.
+
+(* ---- the Cropped colour iterator (src/iterator/contiguous.rs) ----------------------------------- *)
+Definition sdrop (n : nat) (s : stream) : stream :=
+  match s with Fin l => Fin (skipn n l) | Rep c => Rep c end.
+
+Lemma sdrop_0 s : sdrop 0 s = s.
+Proof. destruct s; reflexivity. Qed.
+
+Lemma snext_sdrop s n : snext (sdrop n s) = (sget s (Z.of_nat n), sdrop (Datatypes.S n) s).
+Proof.
+  rewrite sget_Z_of_nat. destruct s as [l|c]; cbn [sdrop snext]; [|reflexivity].
+  rewrite (skipn_cons_nth l n). destruct (nth_error l n) eqn:E; [reflexivity|].
+  rewrite skipn_all2; [reflexivity|]. apply nth_error_None in E. lia.
+Qed.
+
+Lemma snth_sdrop s n k :
+  snth k (sdrop n s) = (sget s (Z.of_nat (n + k)), sdrop (Datatypes.S (n + k)) s).
+Proof.
+  rewrite sget_Z_of_nat. destruct s as [l|c]; cbn [sdrop snth]; [|reflexivity].
+  rewrite nth_error_skipn', skipn_skipn'. do 2 f_equal. f_equal. lia.
+Qed.
+
+Lemma sget_mono s a b : 0 <= a <= b -> sget s b <> None -> sget s a <> None.
+Proof.
+  intros H. destruct s as [l|c]; cbn [sget]; [|discriminate].
+  intros Hb. apply nth_error_Some in Hb. apply nth_error_Some. lia.
+Qed.
+
+(* the points still to be visited when the iterator is at column X of row Y (absolute coordinates in the
+   size.width-wide parent area) *)
+Definition crop_rem (x0 w y0 h X Y : Z) : list point :=
+  map (fun x => P x Y) (range X (x0 + w)) ++ row_major x0 (x0 + w) (Y + 1) (y0 + h).
+
+Lemma crop_rem_step x0 w y0 h X Y :
+  X < x0 + w -> crop_rem x0 w y0 h X Y = P X Y :: crop_rem x0 w y0 h (X + 1) Y.
+Proof. intros H. unfold crop_rem. rewrite (range_cons X) by lia. reflexivity. Qed.
+
+Lemma crop_rem_row x0 w y0 h Y :
+  0 < w -> Y + 1 < y0 + h ->
+  crop_rem x0 w y0 h (x0 + w) Y = P x0 (Y + 1) :: crop_rem x0 w y0 h (x0 + 1) (Y + 1).
+Proof.
+  intros Hw H. unfold crop_rem, row_major. rewrite (range_nil (x0 + w)) by lia.
+  rewrite (range_cons (Y + 1)) by lia. cbn [map app flat_map]. rewrite (range_cons x0) by lia. reflexivity.
+Qed.
+
+Lemma crop_rem_end x0 w y0 h Y :
+  y0 + h <= Y + 1 -> crop_rem x0 w y0 h (x0 + w) Y = [].
+Proof.
+  intros H. unfold crop_rem, row_major. rewrite (range_nil (x0 + w)), (range_nil (Y + 1)) by lia. reflexivity.
+Qed.
+
+Lemma crop_rem_start x0 w y0 h :
+  0 < h -> row_major x0 (x0 + w) y0 (y0 + h) = crop_rem x0 w y0 h x0 y0.
+Proof. intros H. unfold crop_rem, row_major. rewrite (range_cons y0) by lia. reflexivity. Qed.
+
+Lemma cropped_collect_spec cs W x0 y0 w h :
+  0 <= W -> 0 <= x0 -> 0 <= y0 -> 0 < w -> 0 < h -> x0 + w <= W ->
+  forall fuel X Y,
+  x0 <= X <= x0 + w -> y0 <= Y < y0 + h ->
+  (length (crop_rem x0 w y0 h X Y) < fuel)%nat ->
+  cropped_collect fuel (CS (sdrop (Z.to_nat (Y * W + X)) cs) (X - x0) (Y - y0) (S w h) (W - w))
+  = Some (take_some (map (fun q => sget cs (py q * W + px q)) (crop_rem x0 w y0 h X Y))).
+Proof.
+  intros HW Hx0 Hy0 Hw Hh Hfit. induction fuel as [|fuel IH]; intros X Y HX HY Hlen; [lia|].
+  assert (0 <= Y * W) by (apply Z.mul_nonneg_nonneg; lia).
+  cbn [cropped_collect]. unfold cropped_next. cbn [c_iter c_x c_y c_size c_row_skip sw sh].
+  replace (h <=? Y - y0) with false by lia. replace (w =? 0) with false by lia. cbn [orb].
+  destruct (X - x0 <? w) eqn:Ex.
+  - (* inside a row *)
+    rewrite snext_sdrop. rewrite Z2Nat.id by lia.
+    rewrite crop_rem_step in * by lia. cbn [map take_some px py length] in *.
+    destruct (sget cs (Y * W + X)) as [c|]; [|reflexivity].
+    replace (Datatypes.S (Z.to_nat (Y * W + X))) with (Z.to_nat (Y * W + (X + 1))) by lia.
+    replace (X - x0 + 1) with (X + 1 - x0) by lia.
+    rewrite IH by lia. reflexivity.
+  - assert (X = x0 + w) by lia. subst X.
+    destruct (Y - y0 + 1 <? h) eqn:Ey.
+    + (* next row: nth(row_skip) *)
+      rewrite snth_sdrop.
+      rewrite crop_rem_row in * by lia. cbn [map take_some px py length] in *.
+      replace (Z.of_nat (Z.to_nat (Y * W + (x0 + w)) + Z.to_nat (W - w))) with ((Y + 1) * W + x0) by lia.
+      destruct (sget cs ((Y + 1) * W + x0)) as [c|]; [|reflexivity].
+      replace (Datatypes.S (Z.to_nat (Y * W + (x0 + w)) + Z.to_nat (W - w))) with (Z.to_nat ((Y + 1) * W + (x0 + 1))) by lia.
+      replace (Y - y0 + 1) with (Y + 1 - y0) by lia.
+      pose proof (IH (x0 + 1) (Y + 1) ltac:(lia) ltac:(lia) ltac:(lia)) as IH'.
+      replace (x0 + 1 - x0) with 1 in IH' by lia.
+      rewrite IH'. reflexivity.
+    + rewrite crop_rem_end by lia. reflexivity.
+Qed.
+
+(* where the non-empty intersection of two rectangles lies *)
+Lemma intersection_inside a b :
+  size_nonneg a -> size_nonneg b -> is_zero_sized (intersection a b) = false ->
+  let i := intersection a b in
+  px (tl a) <= px (tl i) /\ px (tl i) + sw (sz i) <= px (tl a) + sw (sz a) /\
+  py (tl a) <= py (tl i) /\ py (tl i) + sh (sz i) <= py (tl a) + sh (sz a) /\
+  px (tl b) <= px (tl i) /\ px (tl i) + sw (sz i) <= px (tl b) + sw (sz b) /\
+  py (tl b) <= py (tl i) /\ py (tl i) + sh (sz i) <= py (tl b) + sh (sz b) /\
+  0 < sw (sz i) /\ 0 < sh (sz i).
+Proof.
+  destr_rects. unf. intros Ha Hb. split_ifs; cbn [tl sz px py sw sh]; intros; lia.
+Qed.
+
+Theorem cropped_iter_spec cs size crop :
+  size_fits size -> size_nonneg crop ->
+  cropped_iter cs size crop =
+  take_some (map (fun q => sget cs (idx_in (R (P 0 0) size) q)) (points (intersection (R (P 0 0) size) crop))).
+Proof.
+  intros Hs Hc. unfold cropped_iter, cropped_new.
+  set (ca := intersection (R (P 0 0) size) crop).
+  assert (size_nonneg (R (P 0 0) size)) as Hn by (unfold size_fits, size_nonneg in *; cbn [sz]; lia).
+  pose proof (intersection_size_nonneg _ _ Hn Hc) as Hcn. fold ca in Hcn.
+  destruct (is_zero_sized ca) eqn:Ez.
+  - unfold points. rewrite Ez. cbn [map take_some].
+    unfold cropped_fuel. cbn [c_size cropped_collect]. unfold cropped_next. cbn [c_size c_y c_x].
+    replace ((sh (sz ca) <=? 0) || (sw (sz ca) =? 0)) with true; [reflexivity|].
+    unfold is_zero_sized, size_nonneg in *. lia.
+  - pose proof (intersection_inside _ _ Hn Hc Ez) as Hin. fold ca in Hin. cbn [tl sz px py] in Hin.
+    cbv zeta in Hin. destruct Hin as (Hx0 & Hx1 & Hy0 & Hy1 & _ & _ & _ & _ & Hw & Hh).
+    destruct size as [W H]. unfold size_fits in Hs. cbn [sw sh] in *.
+    assert (rect_fits ca) as Hf by (unfold rect_fits, size_fits, i32_max, i32_min in *; lia).
+    rewrite (points_row_major_fits ca Hf), Ez.
+    set (x0 := px (tl ca)) in *. set (y0 := py (tl ca)) in *. set (w := sw (sz ca)) in *. set (h := sh (sz ca)) in *.
+    assert (0 <= y0 * W) by (apply Z.mul_nonneg_nonneg; lia).
+    assert (sat_sub_u32 W w = W - w) as -> by (unfold sat_sub_u32; lia).
+    assert ((if 0 <? y0 * W + x0 then snd (snth (Z.to_nat (y0 * W + x0 - 1)) cs) else cs)
+            = sdrop (Z.to_nat (y0 * W + x0)) cs) as ->.
+    { destruct (0 <? y0 * W + x0) eqn:E.
+      - rewrite <- (sdrop_0 cs) at 1. rewrite snth_sdrop. cbn [snd]. f_equal. lia.
+      - replace (y0 * W + x0) with 0 by lia. symmetry. apply sdrop_0. }
+    replace (sz ca) with (S w h) by (destruct (sz ca); reflexivity).
+    unfold cropped_fuel. cbn [c_size sw sh].
+    rewrite crop_rem_start by lia.
+    pose proof (cropped_collect_spec cs W x0 y0 w h ltac:(lia) Hx0 Hy0 Hw Hh Hx1
+                  (Datatypes.S (Z.to_nat (w * h))) x0 y0 ltac:(lia) ltac:(lia)) as Hsp.
+    replace (x0 - x0) with 0 in Hsp by lia. replace (y0 - y0) with 0 in Hsp by lia.
+    rewrite Hsp.
+    + f_equal. apply map_ext. intros q. unfold idx_in. cbn [tl sz px py sw]. f_equal. lia.
+    + rewrite <- crop_rem_start by lia. pose proof (length_row_major x0 (x0 + w) y0 (y0 + h)). nia.
+Qed.
+
+(* the fuel the model passes is never exhausted *)
+Theorem cropped_fuel_ok cs size crop :
+  size_fits size -> size_nonneg crop ->
+  let st := cropped_new cs size crop in cropped_collect (cropped_fuel st) st <> None.
+Proof.
+  intros Hs Hc st. pose proof (cropped_iter_spec cs size crop Hs Hc) as Hspec.
+  unfold cropped_iter in Hspec. fold st in Hspec.
+  (* replay the two cases of the proof above through the collected list *)
+  subst st. unfold cropped_new in *.
+  set (ca := intersection (R (P 0 0) size) crop) in *.
+  assert (size_nonneg (R (P 0 0) size)) as Hn by (unfold size_fits, size_nonneg in *; cbn [sz]; lia).
+  pose proof (intersection_size_nonneg _ _ Hn Hc) as Hcn. fold ca in Hcn.
+  destruct (is_zero_sized ca) eqn:Ez.
+  - unfold cropped_fuel. cbn [c_size cropped_collect]. unfold cropped_next. cbn [c_size c_y c_x].
+    replace ((sh (sz ca) <=? 0) || (sw (sz ca) =? 0)) with true; [discriminate|].
+    unfold is_zero_sized, size_nonneg in *. lia.
+  - pose proof (intersection_inside _ _ Hn Hc Ez) as Hin. fold ca in Hin. cbn [tl sz px py] in Hin.
+    cbv zeta in Hin. destruct Hin as (Hx0 & Hx1 & Hy0 & Hy1 & _ & _ & _ & _ & Hw & Hh).
+    destruct size as [W H]. unfold size_fits in Hs. cbn [sw sh] in *.
+    set (x0 := px (tl ca)) in *. set (y0 := py (tl ca)) in *. set (w := sw (sz ca)) in *. set (h := sh (sz ca)) in *.
+    assert (0 <= y0 * W) by (apply Z.mul_nonneg_nonneg; lia).
+    assert (sat_sub_u32 W w = W - w) as -> by (unfold sat_sub_u32; lia).
+    assert ((if 0 <? y0 * W + x0 then snd (snth (Z.to_nat (y0 * W + x0 - 1)) cs) else cs)
+            = sdrop (Z.to_nat (y0 * W + x0)) cs) as ->.
+    { destruct (0 <? y0 * W + x0) eqn:E.
+      - rewrite <- (sdrop_0 cs) at 1. rewrite snth_sdrop. cbn [snd]. f_equal. lia.
+      - replace (y0 * W + x0) with 0 by lia. symmetry. apply sdrop_0. }
+    replace (sz ca) with (S w h) by (destruct (sz ca); reflexivity).
+    unfold cropped_fuel. cbn [c_size sw sh].
+    pose proof (cropped_collect_spec cs W x0 y0 w h ltac:(lia) Hx0 Hy0 Hw Hh Hx1
+                  (Datatypes.S (Z.to_nat (w * h))) x0 y0 ltac:(lia) ltac:(lia)) as Hsp.
+    replace (x0 - x0) with 0 in Hsp by lia. replace (y0 - y0) with 0 in Hsp by lia.
+    rewrite Hsp; [discriminate|].
+    rewrite <- crop_rem_start by lia. pose proof (length_row_major x0 (x0 + w) y0 (y0 + h)). nia.
+Qed.
